@@ -77,6 +77,7 @@ def odd_timing_inserts(s, n_states):
 def run(s):
     K.suite_workload(s)
     K.fixtures_workload(s)
+    K.huge_cases(s, 2 if s.tier == 'quick' else 12)
     K.large_cases(s, 24 if s.tier == 'quick' else 600, 'both')
     K.pair_histories(s)
     q = s.tier == 'quick'
